@@ -1,7 +1,7 @@
 (* C05 - c-inference = skeptical inference over all c-representations. *)
 From InfOCF Require Import Core Tol CInf PEnt Form Model CModel ThmC ThmPostInt.
 From InfOCFProps Require Import Ex.
-From InfOCF Require Import PyLib PyInt TieMax TieC TieCBase TieCInf.
+From InfOCF Require Import PyLib PyInt TieMax TieC TieCBase TieCInf TieCComp TieCPipe.
 From InfOCFGen Require Import SrcC.
 From Coq Require Import ZArith.
 
@@ -92,6 +92,24 @@ Theorem C05_source_inference_is_skeptical : forall n D, NoDup (map kz D) -> (for
             (selffulfilling n D = false -> (b = true <-> c_spec_prop n D q)).
 Proof. exact src_c_inference_skeptical. Qed.
 Print Assumptions C05_source_inference_is_skeptical.
+
+(* ... and compile_constraint: from the CNF dictionaries of the preprocessing (by their contract) and empty tables it fills vMin /
+   fMin with exactly the dictionaries the two theorems above start from (minimal_correction_subsets by its contract, ignore=[i]) *)
+Theorem C05_source_compile_constraint_fills_minima : forall n D, NoDup (map kz D) ->
+  py_CInference_compile_constraint n (nf_of D) (vd_of D) (fd_of D) tt [] [] = Return (tt, (vM n D, fM n D)).
+Proof. exact tie_compile_constraint. Qed.
+Print Assumptions C05_source_compile_constraint_fills_minima.
+(* the whole chain as CInference runs it *)
+Theorem C05_source_pipeline_is_skeptical : forall n D, NoDup (map kz D) -> (forall i, i < length D -> vMin n D i <> []) ->
+  forall isolve, (forall l, exists b, isolve l = Return b /\ (b = true <-> exists sg, csp_sat sg l = true)) ->
+  forall q weakly, exists vm fm base b,
+    py_CInference_compile_constraint n (nf_of D) (vd_of D) (fd_of D) tt [] [] = Return (tt, (vm, fm)) /\
+    py_CInference_translate n (bb_of D) vm fm = Return base /\
+    py_CInference_inference n isolve (bb_of D) tt base (nf_of D) q weakly tt = Return b /\
+    (selffulfilling n D = true -> b = false) /\
+    (selffulfilling n D = false -> (b = true <-> c_spec_prop n D q)).
+Proof. exact src_c_pipeline. Qed.
+Print Assumptions C05_source_pipeline_is_skeptical.
 
 Example birds_c : check_counter 4 birds [1;2;2;1] q_fp = true /\ search_counter 4 birds 3 q_wp = None
   /\ selffulfilling 4 birds = false.
